@@ -409,3 +409,162 @@ def walk_layout(f, pre_len_in_file_excluded):
     if ln is None or io + n + 4 + ln != len(f) - 512:
         return None
     return nb, io, io_abs, n + 4 + ln
+
+
+# ---------------------------------------------------------------------------------------------
+# merger family (C04, C05): sources = real tables or a user-defined poisoning source
+
+def tok(si, ei):
+    return bytes([0x40 + si, ei & 0xff])
+
+
+def gen_merger_case(rng, stats, focus="C04"):
+    ns = rng.pick([0, 1, 2, 2, 3, 3, 4, 6])
+    universe = gen_keys(rng, rng.pick([1, 3, 6, 10, 16]), stats, long_ok=False)
+    mode = rng.pick(["union", "union", "union", "none", "dupsort", "fail"])
+    stats.bump("merger_mode_" + mode); stats.bump("merger_sources_%d" % ns)
+    lines = ["reset"]
+    srcs = []
+    for si in range(ns):
+        kind = "u" if rng.chance(1, 3) else "t"
+        r = rng.below(5)
+        if r == 0:
+            ks = []
+        elif r == 1:
+            ks = list(universe)
+        else:
+            ks = [k for k in universe if rng.chance(1, 2)]
+        if kind == "u" and mode in ("none", "dupsort") and ks and rng.chance(1, 2):
+            ks = sorted(ks + [rng.pick(ks) for _ in range(rng.below(3))])   # duplicate keys inside one user source
+        es = []
+        for ei, k in enumerate(ks):
+            v = tok(si, ei)
+            if mode == "none":
+                v = b"=="            # order among equal keys is unspecified without dupsort: give ties equal values
+            es.append((k, v))
+        if mode == "dupsort":
+            es.sort()
+        srcs.append((kind, es))
+        stats.bump("merger_src_" + kind)
+        if not es:
+            stats.bump("merger_empty_source")
+    allkeys = sorted(set(k for _, es in srcs for k, _ in es))
+    failkey = None
+    if mode == "fail":
+        multi = [k for k in allkeys if sum(1 for _, es in srcs for kk, _ in es if kk == k) >= 2]
+        failkey = rng.pick(multi) if multi and rng.chance(3, 4) else (rng.pick(allkeys) if allkeys else b"zz")
+    marg = {"union": "merge=union", "none": "merge=none", "dupsort": "merge=none dupsort=1", "fail": "merge=fail:%s" % hx(failkey or b"")}[mode]
+    lines.append("m.new 1 " + marg)
+    for kind, es in srcs:
+        lines.append("m.src 1 kind=%s bs=%d ri=%d %s" % (kind, rng.pick([16, 32, 64]), rng.pick([1, 2, 3]), " ".join("%s %s" % (hx(k), hx(v)) for k, v in es)))
+    # drain
+    total = sum(len(es) for _, es in srcs)
+    lines.append("m.it 1 10 iter")
+    for _ in range(total + 2):
+        lines.append("m.next 10")
+    iid = 11
+    if focus == "C05" or rng.chance(1, 2):
+        for _ in range(rng.pick([2, 4])):
+            kind = gen_kind(rng, allkeys, which=1 + rng.below(3))
+            lines.append("m.it 1 %d %s" % (iid, kind_args(kind)))
+            for _ in range(rng.pick([2, 4, total + 1])):
+                lines.append("m.next %d" % iid)
+            iid += 1
+        for _ in range(rng.pick([1, 2, 3])):
+            kind = gen_kind(rng, allkeys)
+            lines.append("m.it 1 %d %s" % (iid, kind_args(kind)))
+            cur = Cursor([(k, b"") for k in allkeys], kind)
+            lines += history_ops(rng, "m", iid, cur, allkeys, rng.pick([4, 8, 12, 16]), stats)
+            iid += 1
+    return lines
+
+
+def merged_content(mode, srcs):
+    """Spec: the merged view as a sorted entry list"""
+    allents = [(k, v) for es in srcs for k, v in es]
+    if mode in ("union", "fail"):
+        out = {}
+        for k, v in allents:
+            out.setdefault(k, []).append(v)
+        res = []
+        for k in sorted(out):
+            toks = sorted(t for v in out[k] for t in [v[i:i + 2] for i in range(0, len(v), 2)])
+            res.append((k, b"".join(toks), len(out[k])))
+        return res
+    if mode == "dupsort":
+        return [(k, v, 1) for k, v in sorted(allents)]
+    return [(k, v, 1) for k, v in sorted(allents, key=lambda e: e[0])]
+
+
+def oracle_merger(res):
+    fails = []
+    mergers, iters = {}, {}
+    for i, r in enumerate(res):
+        t = r["req"].split(" "); op = t[0]; real = r["real"]
+        for s in r.get("side", []):
+            if s.startswith("#!"):
+                fails.append(("C04", "runtime check: " + s[2:], i))
+        if real == "asan" or real.startswith("crash") or real == "abort":
+            p = "C04"
+            if op in ("m.next", "m.seek") and t[1] in iters and iters[t[1]] and (iters[t[1]].get("seeked") or iters[t[1]]["kind"][0] != "iter"):
+                p = "C05"
+            fails.append((p, "merger operation died: %s %s" % (real, r.get("stderr", "")[-300:]), i)); break
+        if op == "reset":
+            mergers, iters = {}, {}
+        elif op == "m.new":
+            kvs = dict(a.split("=", 1) for a in t[2:] if "=" in a)
+            mg = kvs.get("merge", "none")
+            mode = "union" if mg == "union" else "fail" if mg.startswith("fail:") else "dupsort" if kvs.get("dupsort") == "1" else "none"
+            mergers[t[1]] = {"mode": mode, "failkey": unhx(mg[5:]) if mode == "fail" else None, "srcs": []}
+        elif op == "m.src":
+            vals = [a for a in t[2:] if "=" not in a]
+            mergers[t[1]]["srcs"].append([(unhx(vals[j]), unhx(vals[j + 1])) for j in range(0, len(vals), 2)])
+        elif op == "m.it":
+            m = mergers[t[1]]
+            content = merged_content(m["mode"], m["srcs"])
+            kind = parse_kind(t[3:])
+            c = Cursor([(k, v) for k, v, _ in content], kind)
+            mult = {k: n for k, v, n in content}
+            if real == "null":
+                if kind[0] == "iter" or c.pos < len(content) and in_bound(kind, content[c.pos][0]):
+                    fails.append(("C05" if kind[0] != "iter" else "C04", "NULL merger iterator although matching entries exist", i))
+                iters[t[2]] = None
+            else:
+                iters[t[2]] = {"c": c, "kind": kind, "m": m, "mult": mult, "dead": False, "seeked": False}
+        elif op == "m.next":
+            it = iters.get(t[1], "missing")
+            if it == "missing":
+                continue
+            prop = "C04"
+            if it is None:
+                if real != "fail":
+                    fails.append(("C05", "next on a NULL iterator returned " + real[:60], i))
+                continue
+            if it["seeked"] or it["kind"][0] != "iter":
+                prop = "C05"
+            if it["dead"]:
+                continue
+            exp = it["c"].next()
+            m = it["m"]
+            if exp is not None and m["mode"] == "fail" and exp[0] == m["failkey"] and it["mult"].get(exp[0], 1) >= 2:
+                if real != "fail":
+                    fails.append(("C04", "merge callback failed while assembling %s but next returned %s" % (hx(exp[0]), real[:60]), i))
+                it["dead"] = True      # state after a reported failure is not specified further
+                continue
+            if exp is None:
+                if real != "fail":
+                    fails.append((prop, "next returned %s, expected failure" % real[:80], i))
+            else:
+                want = "ent %s %s" % (hx(exp[0]), hx(exp[1]))
+                if real != want:
+                    fails.append((prop, "next returned %s, expected %s" % (real[:80], want[:80]), i))
+        elif op == "m.seek":
+            it = iters.get(t[1], "missing")
+            if it in ("missing", None):
+                continue
+            if it["dead"]:
+                continue
+            if real != "ok":
+                fails.append(("C05", "seek returned " + real, i))
+            it["c"].seek(unhx(t[2])); it["seeked"] = True
+    return fails
